@@ -690,9 +690,17 @@ class Check:
                     continue
                 if ub:
                     if st != "trap":
-                        # IR-level UB (nsw poison etc.) that the sanitizer does not instrument is possible only
-                        # where clang proved it unreachable; so this is a mismatch worth flagging.
-                        bad.append((name, p, "encoding says UB, native sanitized run returned %r" % (nv,)))
+                        # Only sanitizer trap blocks are guaranteed to trap natively.  UB that exists only at IR level
+                        # (poison from llvm.abs(INT_MIN), nsw/nuw flags the optimiser attached, ...) is not instrumented.
+                        trapped = False
+                        for cond, why in enc.ub_items:
+                            if ("trap" in why or "unreachable" in why) and smt.evaluate(cond, env):
+                                trapped = True
+                                break
+                        if trapped:
+                            bad.append((name, p, "encoding reaches a sanitizer trap block, native sanitized run returned %r" % (nv,)))
+                        else:
+                            self.stats["uninstrumented_ub_points"] = self.stats.get("uninstrumented_ub_points", 0) + 1
                     continue
                 if st == "trap":
                     bad.append((name, p, "native sanitized run trapped, encoding says no UB"))
